@@ -46,6 +46,7 @@ struct vthread {
     void* ret;
     void* wait_obj;        /* mutex address / joined thread index */
     int64_t wake_us;
+    int stalled;                       /* sleeping because the scheduler parked it (not because it called usleep) */
     int cancel;
     int joined;
     const char* where;     /* current librebound function (from the function-entry hook) */
@@ -67,6 +68,7 @@ static struct decision* dlog = NULL; static int dlog_n = 0, dlog_cap = 0;
 static struct decision* replay = NULL; static int replay_n = 0, replay_i = 0;
 static uint64_t sched_digest = 1469598103934665603ULL;
 static int bias_active = 0;            /* set while some thread is inside a named window function */
+static double stall_p = 0.0; static int64_t stall_us = 0; static uint64_t n_stalls = 0, n_trylock_busy = 0;   /* 'slow or stalled node' fault */
 static double bias_p = 0.3;
 
 /* simulated mutexes */
@@ -156,6 +158,7 @@ static int pick_runnable(int exclude){
     return cand[rnd() % n];
 }
 
+static void block_self(int state);
 /* called with the baton; may hand it over */
 HID void verif_yield_point(void){
     if (!armed || my_tid < 0 || my_tid != current) return;
@@ -175,6 +178,21 @@ HID void verif_yield_point(void){
     }else if (policy != 3){
         double p = (policy == 1 && bias_active) ? bias_p : switch_p;
         if (rnd01() < p) to = pick_runnable(my_tid);
+        if (stall_p > 0.0 && nthreads > 1){
+            /* stalled thread: the running thread is taken off the CPU for stall_us of simulated time (as a loaded machine would do), far more
+             * likely while somebody else is waiting for it (blocked on a mutex it may hold, or polling in a sleep loop) */
+            int waited_for = 0;
+            for (int k = 0; k < nthreads; k++) if (k != my_tid && (T[k].state == ST_MUTEX || (T[k].state == ST_SLEEP && !T[k].stalled))) waited_for = 1;
+            double sp = waited_for ? stall_p * 300.0 : stall_p;
+            if (rnd01() < sp){
+                n_stalls++;
+                T[my_tid].wake_us = verif_clock_us + stall_us;
+                T[my_tid].stalled = 1;
+                block_self(ST_SLEEP);
+                T[my_tid].stalled = 0;
+                return;
+            }
+        }
     }
     if (to >= 0) handoff(to);
 }
@@ -365,6 +383,14 @@ int __wrap_pthread_mutex_lock(pthread_mutex_t* m){
     M[i].owner = my_tid;
     return 0;
 }
+int __wrap_pthread_mutex_trylock(pthread_mutex_t* m){
+    if (!armed || my_tid < 0) return pthread_mutex_trylock(m);
+    verif_yield_point();
+    int i = find_mutex(m);
+    if (M[i].owner != -1){ n_trylock_busy++; return 16 /* EBUSY */; }
+    M[i].owner = my_tid;
+    return 0;
+}
 int __wrap_pthread_mutex_unlock(pthread_mutex_t* m){
     if (!armed || my_tid < 0) return pthread_mutex_unlock(m);
     int i = find_mutex(m);
@@ -444,6 +470,7 @@ EXP void verif_sched_begin(uint64_t seed, int pol, double p, double bp, uint64_t
     rng_state = seed; policy = pol; switch_p = p; bias_p = bp; tick = 0; tick_cap = cap ? cap : 50000000ULL;
     n_yields = n_switches = n_blocks = n_clock_jumps = n_mutex_contended = n_mutex_handover_while_integrating = 0;
     dlog_n = 0; replay_i = 0; sched_digest = 1469598103934665603ULL; bias_active = 0;
+    stall_p = 0.0; stall_us = 0; n_stalls = 0; n_trylock_busy = 0;
     listen_fd = -1; listen_closed = 0;
     memset(arrival_window_hit, 0, sizeof(arrival_window_hit));
     int id = nthreads++;
@@ -452,6 +479,8 @@ EXP void verif_sched_begin(uint64_t seed, int pol, double p, double bp, uint64_t
     my_tid = id; current = id;
     armed = 1;
 }
+EXP void verif_sched_set_stall(double p, int64_t us){ stall_p = p; stall_us = us; }
+EXP uint64_t verif_sched_stalls(void){ return n_stalls; }
 EXP void verif_sched_end(void){
     armed = 0;
     my_tid = -1; current = -1;
